@@ -52,4 +52,9 @@ Allowed(fl, d, pfx) == AllowedClass(fl, CouldBeBt(d), CouldBeIpv8(d), BelongsTo(
 MkF(v) == [i \in 1..v.n |-> IF i <= Len(v.h) THEN v.h[i] ELSE IF i = v.n THEN v.z ELSE 170]
 Mk(v) == SubSeq(MkF(v), 1, v.n)   \* (as an explicit tuple)
 
+(* ... and back: the bytes of d a classifier rule can look at.  Every rule above reads offsets < 22, the length  *)
+(* and the last byte only, so d and Mk(ViewOf(d)) are in the same classes.                                       *)
+ViewOf(d) == [h |-> SubSeq(d, 1, IF Len(d) < 22 THEN Len(d) ELSE 22), n |-> Len(d),
+              z |-> IF Len(d) = 0 THEN 0 ELSE d[Len(d)]]
+
 =============================================================================
